@@ -334,6 +334,20 @@ def run_matrix_case(case):
             finally:
                 signal.alarm(0)
         out['res'].append(r)
+    # C06 on a long-lived generated parser object: the semantics object of each call is the one that is used
+    if case.get('backend') == 'generated' and case.get('reuse_kinds'):
+        shared = cls()
+        bad = []
+        for text in case['texts'][:10]:
+            for kind in case['reuse_kinds']:
+                sem, _ = make_semantics2(kind, case['rules'], case.get('params'))
+                sem2, _ = make_semantics2(kind, case['rules'], case.get('params'))
+                kw = dict(settings)
+                a = outcome(lambda: shared.parse(text, start=case.get('start', 's'), **({'semantics': sem} if sem is not None else {}), **kw))
+                b = outcome(lambda: cls().parse(text, start=case.get('start', 's'), **({'semantics': sem2} if sem2 is not None else {}), **kw))
+                if (a['k'], a.get('v'), a.get('cls')) != (b['k'], b.get('v'), b.get('cls')) and len(bad) < 3:
+                    bad.append({'text': text, 'semantics': kind, 'reused_object': a, 'fresh_object': b})
+        out['reuse_mismatch'] = bad
     return out
 
 
@@ -380,9 +394,18 @@ def make_semantics2(kind, rules, params=None):
             if hit(ast):
                 raise FailedSemantics('b')
             return ast
+        if kind == 'failfirst':
+            # stateful: rejects the first evaluation of each rule, accepts afterwards (only a rule that is really re-evaluated,
+            # as @nomemo promises, can get past it)
+            if name not in first:
+                first.add(name)
+                raise FailedSemantics('first')
+            return ast
         if hit(ast):
             raise excs[kind]('boom')
         return ast
+
+    first = set()
 
     class Sem:
         pass
